@@ -269,7 +269,8 @@ impl<T: BitRead> PackedRead for T {
             // 16.11
             (
                 self.read_length_determinant(lower_bound_size, upper_bound_size)?,
-                true,
+                // only the unconstrained length determinant (11.9.3.5 - 11.9.3.8) is fragmented
+                const_is_none!(lower_bound_size) && const_is_none!(upper_bound_size),
             )
         };
 
@@ -340,7 +341,8 @@ impl<T: BitRead> PackedRead for T {
             // 17.8
             (
                 self.read_length_determinant(lower_bound_size, upper_bound_size)?,
-                true,
+                // only the unconstrained length determinant (11.9.3.5 - 11.9.3.8) is fragmented
+                const_is_none!(lower_bound_size) && const_is_none!(upper_bound_size),
             )
         };
 
